@@ -768,7 +768,7 @@ class SpanNot(SpanBiQuery):
             super(SpanNot._Matcher, self).__init__(amm)
 
         def _get_spans(self):
-            if self.a.id() == self.b.id():
+            if self.b.is_active() and self.a.id() == self.b.id():
                 spans = []
                 bspans = self.b.spans()
                 for aspan in self.a.spans():
